@@ -3,6 +3,7 @@
 package c06
 
 import (
+	"os"
 	"context"
 	"fmt"
 	"sort"
@@ -340,9 +341,12 @@ func runScenario(t *testing.T, rt *rapid.T, name string, sc *scenario) {
 				closeReturned.Store(rec.seq.Add(1))
 			})
 		}
+		// every scheduled action has returned, every callback delay has elapsed, and nothing is
+		// runnable any more (in this order: an action that returns late must not let the audit
+		// start while the swarm's goroutines are still working)
+		wg.Wait()
 		time.Sleep(200 * time.Millisecond)
 		synctest.Wait()
-		wg.Wait()
 
 		// outbound transport conns (created by dials)
 		for _, d := range w.Snapshot() {
@@ -356,11 +360,18 @@ func runScenario(t *testing.T, rt *rapid.T, name string, sc *scenario) {
 		}
 
 		check := func(when string, final bool) {
+			if os.Getenv("VERIF_DEBUG") != "" {
+				println("DBG check", when, sw.Connectedness(peerID(0)).String(), sw.Connectedness(peerID(1)).String())
+			}
 			recs := rec.snapshot()
 			fail := func(format string, args ...any) {
 				var b strings.Builder
 				for _, r := range recs {
 					fmt.Fprintf(&b, "\n  [%d..%d] %s n%d %s %s", r.entry, r.exit, r.kind, r.notifiee, r.conn, r.addr)
+				}
+				b.WriteString("\nconnectedness events:")
+				for _, e := range allEvents {
+					fmt.Fprintf(&b, " %s=%s", e.Peer.ShortString(), e.Connectedness)
 				}
 				rt.Fatalf("%s: %s\nschedule: %s\nclose started/returned at seq %d/%d\ncallbacks:%s", when, fmt.Sprintf(format, args...), sc, closeStarted.Load(), closeReturned.Load(), b.String())
 			}
